@@ -467,7 +467,7 @@ class Fock(BaseState):
             assert isinstance(self.state, jnp.ndarray)
             assert self.state.shape == (self.dimensions, 1)
             new_state = jnp.einsum("ij,jk->ik", operation.operator, self.state)
-            if not jnp.any(jnp.abs(new_state) > 0):
+            if not jnp.any(jnp.abs(new_state) > 1e-12):
                 raise ValueError(
                     "The state is entirely composed of zeros, is |0⟩ "
                     "attempted to be annihilated?"
@@ -484,7 +484,7 @@ class Fock(BaseState):
                 self.state,
                 jnp.conj(operation.operator),
             )
-            if not jnp.any(jnp.abs(new_state) > 0):
+            if not jnp.any(jnp.abs(new_state) > 1e-12):
                 raise ValueError(
                     "The state is entirely composed of zeros, is |0⟩"
                     " attempted to be anniilated?"
